@@ -20,7 +20,8 @@ for p in props:
     if getattr(mod, 'NOT_APPLICABLE', None):
         na.append({'property_id': pid, 'reason': mod.NOT_APPLICABLE})
         continue
-    decided = '; '.join(mod.DECIDED)
+    from sa.props.imports import decided_lines
+    decided = '; '.join(list(mod.DECIDED) + decided_lines(pid))
     undecided = '; '.join(mod.NOT_DECIDED)
     checks.append({
         'property_id': pid,
